@@ -475,29 +475,29 @@ def check_busy(ctx, ex, rule="C12.B"):
                 reads, allocs = [], []
                 sc = C.Scenario()
                 sc.overrides["parse_address"] = parse_address
-                # entry k of qubit array 6 of application 1 holds virtual qubit k + 1 (application 0 holds other values)
+                # entry k of qubit array 6 of application 1 holds virtual qubit k (so pair 0 maps virtual qubit 0); application 0 holds others
 
                 def get_entry(app_id=None, array_entry=None, reads=reads):
                     reads.append((app_id, array_entry.fields["address"].fields["address"], array_entry.fields["index"]))
-                    return array_entry.fields["index"] + 1 if app_id == 1 else 0
+                    return array_entry.fields["index"] if app_id == 1 else 3
 
                 sc.overrides["_get_array_entry"] = get_entry
                 sc.overrides["_allocate_physical_qubit"] = lambda subroutine_id=None, virtual_address=None, physical_address=None, allocs=allocs: allocs.append((subroutine_id, virtual_address, physical_address))
                 um = [None, None, None, None]
                 if busy:
-                    um[pair_index + 1] = 3
-                used = {3} if busy else set()
+                    um[pair_index] = 0  # the virtual qubit is mapped to physical qubit 0: an id like any other
+                used = {0} if busy else set()
                 o = C.object_from_init(repo, ex, {"_logger": _Log(), "_qubit_unit_modules": {0: [None] * 4, 1: um}, "_used_physical_qubit_addresses": used,
                                                   "_subroutines": {4: C.Obj(None, {"app_id": 1}), 5: C.Obj(None, {"app_id": 0})}}, kind="self")
                 req = C.Obj(None, {"subroutine_id": 4, "q_array_address": 6, "ent_results_array_address": 8, "tot_pairs": 3, "pairs_left": 3 - pair_index})
                 resp = C.Obj(None, {"logical_qubit_id": 2})
                 out = C.Interp(repo, ctx.ev, sc, ex).call_function(m, fn, [], {"epr_cmd_data": req, "response": resp, "pair_index": pair_index}, self_obj=o)
                 if busy:
-                    if out is not False or allocs or used != {3}:
-                        ok_va, why = False, f"virtual qubit {pair_index + 1} still allocated: returns {out!r}, allocations {allocs}, in-use set {sorted(used)}"
+                    if out is not False or allocs or used != {0}:
+                        ok_va, why = False, f"virtual qubit {pair_index} still allocated (to physical qubit 0): returns {out!r}, allocations {allocs}, in-use set {sorted(used)}"
                 else:
-                    if out is not True or allocs != [(4, pair_index + 1, 2)] or (1, 6, pair_index) not in reads:
-                        ok_va, why = False, f"pair {pair_index}: returns {out!r}, maps {allocs}, read {reads}; expected virtual qubit {pair_index + 1} (entry {pair_index} of array 6 of application 1) -> physical 2"
+                    if out is not True or allocs != [(4, pair_index, 2)] or (1, 6, pair_index) not in reads:
+                        ok_va, why = False, f"pair {pair_index}: returns {out!r}, maps {allocs}, read {reads}; expected virtual qubit {pair_index} (entry {pair_index} of array 6 of application 1) -> physical 2"
     except C.EvalRaise as ex_:
         ok_va, why = False, f"raises {ex_}"
     except AnalysisError as ex_:
@@ -866,6 +866,9 @@ def run(ctx):
     # a value remembered for later calls is keyed by every argument it depends on (nqsa/memo.py)
     from .. import memo
     memo.check(ctx, "C12.K", ['netqasm.backend.executor', 'netqasm.qlink_compat'])
+    # no type test that an earlier type test has already decided (a subclass tested after its base class: nqsa/shadow.py)
+    from .. import shadow
+    shadow.check(ctx, "C12.H", ['netqasm.backend.executor', 'netqasm.qlink_compat'])
 
 
 X = "netqasm/backend/executor.py"
